@@ -10,7 +10,7 @@ NOT_APPLICABLE["C03"] = ("relation between an arbitrary dynamic call tree and an
                          "evolution of handler collections and accumulator forks; no sound static abstraction in reach bounds embeddings")
 NOT_APPLICABLE["C07"] = ("quantifies over call trees and runtime data flow through Total accumulator forks; its only structural clause "
                          "(exit hook on every way out) is decided under C06 rule R06.1")
-SOURCE_COMMITS = []
+SOURCE_COMMITS = ["746fd1a fix: undo the instrumentation counts when the new variant cannot be installed", "798314f fix: untool the functions of a selector that autotool ends up refusing", "f8603ba fix: roll back the tooling of earlier selectors when a later one is refused"]
 
 claim("C12", "P", "AST normal-form comparison tables + wrapper-guard agreement (syntactic dataflow)",
       "Decides structural clauses only: each stock comparison predicate is the single comparison its name states (holds for all "
@@ -25,3 +25,17 @@ claim("C15", "P", "constant-folded priority-tower sign matrix vs calibrated sign
       "The desugaring equalities of evaluator outputs themselves are not decided.",
       "Trusted: sign obligations validated by single-entry flips against the pinned parser (selftest/calibration); the operator-precedence loop consumes only the sign (checked structurally).",
       "DESIGN.md section 6, C15")
+
+claim("C05", "P", "acquire/release pairing on a statement CFG with exception edges (must-pass-through), ContextVar token typestate, who-calls analysis",
+      "Decides structural clauses: rollback of every acquire on exception edges, inverse pairing of enter/exit-like methods (same guard, same token, inverse "
+      "counter updates, code re-install after each counter change), LIFO-only use of ContextVar tokens (public non-with entry points are reported), base code "
+      "iff instrument_count == 0, activation extends the current collection, one stack per function. Necessary conditions of C05 for every history; "
+      "exactly-once delivery itself is a runtime fact and is not decided.",
+      "Trusted: external calls outside callgraph.EXTERNAL_RAISES do not raise; context managers do not swallow exceptions. Known finding: non-LIFO deactivation of global probes (token discipline).",
+      "DESIGN.md section 6, C05")
+claim("C17", "P", "dominance / must-pass-through on the CFG of Probe._enter/_exit, who-may-call sets, dependency summary re-derived from the installed giving source",
+      "Decides: the single-activation guard dominates all acquisitions and its refusing branch acquires nothing; the flag is set on success and never cleared; "
+      "_exit releases what _enter acquired; only the emitters push; ptera never completes observers; SourceProxy.__exit__ completes once, clears, then calls _exit; "
+      "atexit completion of global probes. Results of reductions and late-subscriber behaviour inside reactivex are not decided.",
+      "Trusted: giving.gvn.SourceProxy as installed (re-read and matched structurally on every run); reactivex semantics of on_completed.",
+      "DESIGN.md section 6, C17")
